@@ -60,6 +60,10 @@ def body_lines(case):
             b.append("    append(&'x, %d);" % e["w"])
         elif k == "len":
             b.append("    io::Println(len(x));")
+        elif k in ("xset", "ifxset"):
+            lit = ('"%s"' % "".join(chr(106 + j) for j in range(1, e["n"] + 1))) if kind == "str" else \
+                "[%s]" % ", ".join(str(100 + 10 * j) for j in range(1, e["n"] + 1))
+            b += (["    x = %s;" % lit] if k == "xset" else ["    if c == 1 {", "        x = %s;" % lit, "    }"])
         elif k == "loop":
             nloop += 1
             b += ["    let j%d: i32 = 0;" % nloop, "    while j%d < 2 {" % nloop, "        io::Println(x[i]);",
@@ -91,6 +95,8 @@ def ev_key(case):
             return "rdw(%s,%s)" % (e["ty"], e["big"])
         if k == "wrl":
             return "wrl(%d)" % e["v"]
+        if k in ("xset", "ifxset"):
+            return "%s(%d)" % (k, e["n"])
         return k
     return case["kind"] + ":" + ";".join(one(e) for e in case["events"])
 
@@ -100,6 +106,7 @@ def klass(case):
     ks = [e["k"] for e in case["events"]]
     tags = []
     for t, names in (("reassigned", ("set", "inc")), ("branch", ("ifset",)), ("loop", ("loop",)), ("append", ("app",)),
+                     ("newvalue", ("xset", "ifxset")),
                      ("write", ("wri", "wrl"))):
         if any(k in names for k in ks):
             tags.append(t)
@@ -160,7 +167,7 @@ def run_check(pid, tier, seed, replay, kinds, strict_accept):
             cases += v[:per]
     progs = []
     for c in cases:
-        cs = (0, 1) if any(e["k"] == "ifset" for e in c["events"]) else (0,)
+        cs = (0, 1) if any(e["k"] in ("ifset", "ifxset") for e in c["events"]) else (0,)
         for cv in cs:
             d = env.tmpdir(pid.lower())
             p = os.path.join(d, "m.fer")
